@@ -261,6 +261,12 @@ func cmdRun(args []string) int {
 				inconcl = append(inconcl, fmt.Sprintf("%s: reach marker %q was not hit on any feasible completed path (vacuity guard)", h.Name, m))
 			}
 		}
+		for i := range ex.Violations {
+			ex.Violations[i].Harness = h.Name // the spec entry (several entries may share one Go function)
+		}
+		for i := range ex.PassingPaths {
+			ex.PassingPaths[i].Harness = h.Name
+		}
 		allViol = append(allViol, ex.Violations...)
 	}
 
